@@ -191,6 +191,19 @@ class Flow:
         if txt.startswith("[") and txt.endswith("]"):
             parts = [x for x in split_top(txt[1:-1]) if x.strip()]
             return ("agg", "array%d" % len(parts), [self.operand(P, x) for x in parts])
+        m = re.match(r"^\{(closure|coroutine)@[^}]*\}\s*(?:\{(.*)\})?$", txt)
+        if m:
+            # a closure value: an aggregate of its captures
+            fields = []
+            for part in split_top(m.group(2) or ""):
+                if not part.strip():
+                    continue
+                mm = re.match(r"^\s*\w+:\s*(.*)$", part.strip())
+                v = self.operand(P, mm.group(1) if mm else part)
+                if isinstance(v, Ref):
+                    v = fun("ref", 1)(self.term(self.read(P, v.local, list(v.path))))
+                fields.append(v)
+            return ("agg", "closure", fields)
         m = re.match(r"^([\w:<>, ]+?)\s*\{(.*)\}$", txt)
         if m:
             fields = []
